@@ -139,8 +139,13 @@ func (h *harness) exec(signers []transaction.Signer, targets [][]byte, chain cha
 	if chain.mode == 2 {
 		return h.execVerify(signers, targets, chain)
 	}
-	script, rest := w.script(targets, chain.syms, chain.muts)
-	frames = append([]frame{{hash: hashOf(script), kind: "entry", name: []string{"entry", "vscript"}[chain.mode]}}, rest...)
+	var rest []frame
+	if chain.mode == 3 {
+		script, rest = w.script(targets, chain.syms, chain.muts, callflag.All&^callflag.ReadStates)
+	} else {
+		script, rest = w.script(targets, chain.syms, chain.muts)
+	}
+	frames = append([]frame{{hash: hashOf(script), kind: "entry", name: []string{"entry", "vscript", "", "entry"}[chain.mode]}}, rest...)
 	tx := transaction.New(script, 0)
 	tx.Signers = signers
 	trig := trigger.Application
@@ -376,7 +381,7 @@ func (d *decoder) frame(it stackitem.Item, pos int, p int, own int8, rest []sym,
 }
 
 func chainName(c chainSpec) string {
-	n := []string{"e", "verification-script", "verify-method-of"}[c.mode]
+	n := []string{"e", "verification-script", "verify-method-of", "e(first call without ReadStates)"}[c.mode]
 	for i, s := range c.syms {
 		if s == 'O' {
 			n += ">Oracle.request || response-script>Oracle.finish>callback-of-the-requester"
@@ -921,6 +926,14 @@ func TestCheck(t *testing.T) {
 				for _, ci := range u.j.chains {
 					h.runCase(l, &cfg, h.chains[ci], false)
 				}
+				if !needsGroups(cfg.signers) {
+					// frames without ReadStates: nothing here needs a contract's groups,
+					// so the answers are those of the ordinary run and nothing faults
+					for _, c := range noReadChains {
+						h.runCase(l, &cfg, c, false)
+						l.obs["runs_with_frames_lacking_ReadStates"]++
+					}
+				}
 			}
 		}()
 	}
@@ -1057,4 +1070,47 @@ func TestCheck(t *testing.T) {
 	if tot["cells"] == 0 {
 		run.Inconclusive("no cell was compared")
 	}
+}
+
+// noReadChains are run in mode 3 (see chainSpec).
+// Single hops only: System.Contract.Call itself needs ReadStates, a frame without it
+// cannot relay.
+var noReadChains = []chainSpec{mkChain([]sym{'A'}, nil).withMode(3), mkChain([]sym{'B'}, nil).withMode(3), mkChain([]sym{'C'}, nil).withMode(3)}
+
+// needsGroups tells whether evaluating some signer may require the groups of a
+// contract (which needs ReadStates in the checking frame).
+func needsGroups(signers []transaction.Signer) bool {
+	var uses func(c cond) bool
+	uses = func(c cond) bool {
+		switch v := c.(type) {
+		case *transaction.ConditionGroup, *transaction.ConditionCalledByGroup:
+			return true
+		case *transaction.ConditionNot:
+			return uses(v.Condition)
+		case *transaction.ConditionAnd:
+			for _, x := range *v {
+				if uses(x) {
+					return true
+				}
+			}
+		case *transaction.ConditionOr:
+			for _, x := range *v {
+				if uses(x) {
+					return true
+				}
+			}
+		}
+		return false
+	}
+	for _, s := range signers {
+		if s.Scopes&transaction.CustomGroups != 0 {
+			return true
+		}
+		for _, r := range s.Rules {
+			if uses(r.Condition) {
+				return true
+			}
+		}
+	}
+	return false
 }
